@@ -51,6 +51,8 @@ class Recorder:
         self.t0 = time.time()
         self.default_timeout_ms = 60000
         self.fail_fast = False  # canary runs stop at the first candidate
+        self.validated = 0  # symbolic paths whose model was re-run on the unstubbed real code with floats, all obligations holding
+        self.validation_mismatches = []
 
     # ---- bookkeeping
     def encoded(self, *objs):
@@ -212,6 +214,8 @@ class Recorder:
             "functions": sorted(self.functions),
             "assumptions": sorted(self.assumptions),
             "errors": self.errors,
+            "validated": self.validated,
+            "validation_mismatches": self.validation_mismatches[:10],
             "wall_s": round(time.time() - self.t0, 3),
             "solver": {
                 "queries": core.STATS.queries,
